@@ -47,7 +47,7 @@ def _class_chars(pattern, flags=0):
     return ascii_hit, nonascii
 
 
-@rule("C10.xml-table", min_instances=4)
+@rule("C10.xml-table", min_instances=4, props=["C02"])
 def xml_table(ctx):
     """xml_escape's character class equals the key set of xml_escapes, covers & < > \" ', and no replacement contains a raw markup character"""
     db = ctx.db
@@ -65,7 +65,9 @@ def xml_table(ctx):
     else:
         # compiled pattern: <name>.sub(repl, string)
         subs = [c for c in walk_func(fn) if isinstance(c, ast.Call) and isinstance(c.func, ast.Attribute) and c.func.attr == "sub" and isinstance(c.func.value, ast.Name)]
-        ctx.require(subs, "xml_escape performs no regex substitution")
+        if not subs:
+            ctx.violation("substitution", db.where(fn), "xml_escape no longer substitutes through the xml_escapes table (it returns %s): the `x` flag does not denote the documented, invertible five-character escape for every value" % "; ".join(src(r_.value) for r_ in walk_func(fn) if isinstance(r_, ast.Return) and r_.value is not None))
+            return
         v = db.module_assign("filters", subs[0].func.value.id)
         if isinstance(v, ast.Call) and dotted(v.func) == "re.compile":
             pat = str_value(v.args[0])
@@ -82,8 +84,8 @@ def xml_table(ctx):
         ok = isinstance(v, str) and v.startswith("&") and v.endswith(";") and not (set(v[1:-1]) & (MARKUP | {"&"})) and re.fullmatch(r"&(#\d+|#x[0-9a-fA-F]+|\w+);", v)
         ctx.check(bool(ok), "replacement:%s" % k, db.where(tbl), "replacement %r for %r is not a well-formed entity free of raw markup" % (v, k), "%r -> %r" % (k, v))
     lam = repl_arg
-    ctx.check(isinstance(lam, ast.Lambda) and "xml_escapes[m.group()]" in src(lam), "lookup", db.where(subs[0]), "replacement callback is %s" % src(lam), "replacement = xml_escapes[matched char]")
-    ctx.check(src(input_arg) == "string", "input", db.where(subs[0]), "re.sub is not applied to the whole input", "applied to the input string")
+    ctx.check(isinstance(lam, ast.Lambda) and (P.matches(lam, "lambda $m: xml_escapes[$m.group()]") or P.matches(lam, "lambda $m: xml_escapes[$m.group(0)]") or P.matches(lam, "lambda $m: xml_escapes[$m.group(1)]")), "lookup", db.where(subs[0]), "replacement callback is %s" % src(lam), "replacement = xml_escapes[matched char]")
+    ctx.check(src(input_arg) == pn(fn, 0), "input", db.where(subs[0]), "re.sub is not applied to the whole input", "applied to the input string")
     he = db.module_assign("filters", "html_escape")
     ctx.check(dotted(he) == "markupsafe.escape", "html_escape", db.where(he), "html_escape is %s" % src(he), "html_escape = markupsafe.escape")
 
